@@ -113,6 +113,17 @@ func mapGen() *rapid.Generator[*gostatsd.MetricMap] {
 				mm.Sets[name][key] = gostatsd.Set{Values: members, Timestamp: ts, Source: src, Tags: tags}
 			}
 		}
+		if rapid.IntRange(0, 3).Draw(t, "equal-keys") == 0 {
+			// series of different names whose keys are the same string although their tags and sources differ: a key renders
+			// the source as ",s:<source>", which a tag "s:<source>" spells as well (what the statsd relay emits). Names
+			// differ, so the two never meet in one map slot (that case is the known finding C07:source-tag-key-collision).
+			k1 := gostatsd.FormatTagsKey("web1", gostatsd.Tags{"env:prod"})
+			k2 := gostatsd.FormatTagsKey("", gostatsd.Tags{"env:prod", "s:web1"})
+			mm.Gauges["keytwin.g"] = map[string]gostatsd.Gauge{k1: {Value: 1.5, Timestamp: 2, Source: "web1", Tags: gostatsd.Tags{"env:prod"}}}
+			mm.Counters["keytwin.c"] = map[string]gostatsd.Counter{k2: {Value: 7, Timestamp: 2, Tags: gostatsd.Tags{"env:prod", "s:web1"}}}
+			mm.Timers["keytwin.t"] = map[string]gostatsd.Timer{k2: {Values: []float64{3}, SampledCount: 1, Timestamp: 2, Tags: gostatsd.Tags{"env:prod", "s:web1"}}}
+			mm.Sets["keytwin.s"] = map[string]gostatsd.Set{k1: {Values: map[string]struct{}{"m": {}}, Timestamp: 2, Source: "web1", Tags: gostatsd.Tags{"env:prod"}}}
+		}
 		return mm
 	})
 }
